@@ -757,9 +757,17 @@ func (cs *Contracts) LoadFile(path, pkgPath string, specOnly bool) {
 				continue
 			}
 			key := pkgPath + "." + tm
+			typ, mu := tm[:j], tm[j+1:]
+			if strings.HasPrefix(tm, "local ") {
+				// guards local F.mu: a, b — a mutex that is a local variable mu of function F,
+				// protecting the local variables a, b (shared with F's closures)
+				fn := strings.TrimSpace(tm[len("local "):j])
+				key = pkgPath + "." + fn + "#" + mu
+				typ = "local"
+			}
 			gd := cs.Guards[key]
 			if gd == nil {
-				gd = &GuardDecl{Key: key, Type: tm[:j], Mu: tm[j+1:], Pkg: pkgPath}
+				gd = &GuardDecl{Key: key, Type: typ, Mu: mu, Pkg: pkgPath}
 				cs.Guards[key] = gd
 			}
 			if kw == "guards" {
